@@ -10,6 +10,9 @@ state, every fault position.  `chainItems c xs = xs.filterMap (chainFn c)` is wh
 -/
 import SophiaProofs.Lemmas.Source
 import SophiaProofs.Lemmas.SourceIter
+import SophiaProofs.Lemmas.SourceGeneric
+import SophiaModel.Model.SourceText
+import SophiaModel.Gen.SourceShapes
 
 namespace SophiaProofs.C15
 open SophiaModel SophiaModel.Source SophiaProofs.SourceLemmas
@@ -710,6 +713,183 @@ theorem serializeRio_spec (plan : FmtPlan) (p : εk) (c : List Adapter) (sc : Li
         cases u
         cases plan.finishFails <;> rfl
 
+/-! ## The transcription is of the current text -/
+
+/-- the 41 Rust function bodies the model mirrors, regenerated from /repo on every run, are the
+text the model was transcribed from -/
+theorem transcribed_text_is_current : Gen.SourceShapes.shapes = SourceText.expected := by rfl
+
+/-- no store, source or adapter type overrides a provided stream method (`insert_all`, `remove_all`,
+the `for_*` / `try_for_*` loops): the defaults the model mirrors are the code that runs -/
+theorem no_bulk_override : Gen.SourceShapes.overrides = [] := by rfl
+
+/-! ## Arbitrary pure closures, any item type -/
+
+/-- `run_spec` does not depend on the protocol's closed family of closures: for ANY item type, any
+chain of filter / map / filter_map / convert adapters carrying ANY pure closures, any batch script,
+any callback -/
+theorem run_spec_generic {ι : Type} (c : List (GAdapter ι)) (f : Sink κ ι εk) (sc : List (Ev ι ε)) (k : κ) :
+    (tryForEachItem (gApplyChain c rioSource) f sc k).2 =
+      specResult f k ((Ev.itemsOf sc).filterMap (gChainFn c)) (Ev.errorOf sc) := by
+  unfold tryForEachItem
+  rw [gApplyChain_fuel]
+  exact gLoop_spec c f sc _ k (Nat.lt_succ_self _)
+
+/-- the protocol family is the generic construction applied to its closures -/
+theorem family_is_generic {σ : Type} (c : List Adapter) (S : Source σ Item ε) :
+    applyChain c S = gApplyChain (c.map Adapter.toG) S ∧ chainFn c = gChainFn (c.map Adapter.toG) := by
+  constructor
+  · induction c generalizing S with
+    | nil => rfl
+    | cons a rest ih =>
+      have h1 : applyChain (a :: rest) S = applyChain rest (a.apply S) := rfl
+      have h2 : gApplyChain ((a :: rest).map Adapter.toG) S = gApplyChain (rest.map Adapter.toG) (a.toG.apply S) := rfl
+      rw [h1, h2, toG_apply, ih]
+  · induction c with
+    | nil => rfl
+    | cons a rest ih =>
+      funext i
+      simp only [chainFn, List.map_cons, gChainFn, toG_fn, ih]
+
+/-! ## Fuel: the `none` outcome of the model's loops is unreachable -/
+
+theorem specResult_isSome {ι : Type} (f : Sink κ ι εk) (k : κ) (xs : List ι) (err : Option ε) :
+    (specResult f k xs err).2 ≠ none := by
+  unfold specResult
+  rcases feed f k xs with ⟨k', r⟩
+  cases r with
+  | error e => simp
+  | ok u => cases u; simp
+
+theorem fuel_suffices_iter (c : List Adapter) (f : Sink κ Item εk) (rs : List (Except ε Item)) (k : κ) :
+    (tryForEachItem (applyChain c iterSource) f rs k).2.2 ≠ none := by
+  rw [run_spec_iter]; exact specResult_isSome _ _ _ _
+
+/-! ## `into_iter` from ANY state of the iterator (not only a fresh one) -/
+
+/-- whatever is already buffered and wherever the inner source stands: the run is the
+specification on what is pending -/
+theorem into_iter_run_spec_any_state (c1 : List Adapter) (a : Adapter) (c2 : List Adapter) (f : Sink κ Item εk)
+    (st : IterSt (List (Ev Item ε)) Item ε) (k : κ) :
+    (tryForEachItem (applyChain c2 (intoIterSource (applyChain c1 rioSource) a)) f st k).2 =
+      specResult f k (chainItems c2 (Ev.itemsOf ((pending c1 a st).map Ev.ofResult)))
+        (Ev.errorOf ((pending c1 a st).map Ev.ofResult)) := by
+  unfold tryForEachItem
+  rw [applyChain_fuel, intoIter_loop, iter_loop]
+  have hlen : (List.map Ev.ofResult (pending c1 a st)).length <
+      (intoIterSource (applyChain c1 rioSource) a).fuel st := by
+    have := resultsOf_length (chainFn (c1 ++ [a])) st.source
+    simp only [pending, intoIterSource, ofIter, List.length_map, List.length_append]
+    omega
+  rw [loop_spec c2 f _ _ k hlen]
+
+theorem fuel_suffices_into_iter (c1 : List Adapter) (a : Adapter) (c2 : List Adapter) (f : Sink κ Item εk)
+    (st : IterSt (List (Ev Item ε)) Item ε) (k : κ) :
+    (tryForEachItem (applyChain c2 (intoIterSource (applyChain c1 rioSource) a)) f st k).2.2 ≠ none := by
+  rw [into_iter_run_spec_any_state]; exact specResult_isSome _ _ _ _
+
+/-! ## Multi-index stores: after ANY run, faulted or not, every index shows the same statements -/
+
+theorem mem_setInsert (l : List Item) (x y : Item) : y ∈ setInsert l x ↔ y ∈ l ∨ y = x := by
+  unfold setInsert
+  by_cases h : x ∈ l
+  · simp only [List.contains_eq_mem, h, decide_true, if_true]
+    constructor
+    · exact Or.inl
+    · rintro (h' | rfl)
+      · exact h'
+      · exact h
+  · simp [h]
+
+theorem fast_insert_coherent (st : FastStore) (i : Item) (h : st.coherent) : (st.insert i).1.coherent := by
+  unfold FastStore.insert
+  cases st.toStore.ensureIndex i.val with
+  | error e => exact h
+  | ok ix =>
+    simp only
+    by_cases hc : i ∈ st.spo
+    · simp only [List.contains_eq_mem, hc, decide_true, if_true]
+      exact h
+    · simp only [List.contains_eq_mem, hc, decide_false, Bool.false_eq_true, if_false]
+      constructor
+      · intro x
+        simp only [mem_setInsert, List.mem_append, List.mem_singleton, h.1 x]
+      · intro x
+        simp only [mem_setInsert, List.mem_append, List.mem_singleton, h.2 x]
+
+/-- the whole `insert_all` run on a fast store, stopped anywhere by a source or a sink fault,
+leaves the indexes coherent -/
+theorem fast_feed_coherent (xs : List Item) (log : List Item) (g : FastStore) (c0 : Nat) (h : g.coherent) :
+    (feed (tap fastInsertAllSink) (log, (g, c0)) xs).1.2.1.coherent := by
+  induction xs generalizing log g c0 with
+  | nil => exact h
+  | cons x xs ih =>
+    simp only [feed, tap, fastInsertAllSink]
+    have hc := fast_insert_coherent g x h
+    rcases hi : g.insert x with ⟨g', r⟩
+    rw [hi] at hc
+    cases r with
+    | error e => exact hc
+    | ok b =>
+      cases b with
+      | true => exact ih _ g' _ hc
+      | false => exact ih _ g' _ hc
+
+theorem fast_insert_all_coherent (c : List Adapter) (sc : List (Ev Item ε)) (g : FastStore) (h : g.coherent) :
+    (insertAllFast (applyChain c rioSource) sc g).2.2.1.coherent := by
+  have hrun := run_spec c (tap fastInsertAllSink) sc ([], (g, 0))
+  have hf := fast_feed_coherent (chainItems c (Ev.itemsOf sc)) [] g 0 h
+  unfold insertAllFast tryForEachTriple
+  have heta : (fun k i => tap fastInsertAllSink k i) = tap fastInsertAllSink := rfl
+  rw [heta]
+  rcases hr : tryForEachItem (applyChain c rioSource) (tap fastInsertAllSink) sc ([], (g, 0)) with
+    ⟨s', ⟨log, g', c'⟩, r⟩
+  rw [hr] at hrun
+  simp only [specResult] at hrun
+  rcases hx : feed (tap fastInsertAllSink) ([], (g, 0)) (chainItems c (Ev.itemsOf sc)) with ⟨⟨log2, g2, c2⟩, r2⟩
+  rw [hx] at hrun hf
+  cases r2 with
+  | error e =>
+    simp only [Prod.mk.injEq] at hrun
+    obtain ⟨⟨-, hg, -⟩, -⟩ := hrun
+    subst hg
+    exact hf
+  | ok u =>
+    cases u
+    simp only [Prod.mk.injEq] at hrun
+    obtain ⟨⟨-, hg, -⟩, -⟩ := hrun
+    subst hg
+    exact hf
+
+/-- the primary index of the fast store evolves exactly like the one-list `Store` of the count
+theorems (same result, same term index) -/
+theorem fast_insert_sim (st : FastStore) (i : Item) :
+    (st.insert i).2 = (st.toStore.insert i).2 ∧ (st.insert i).1.toStore = (st.toStore.insert i).1 := by
+  unfold FastStore.insert Store.insert
+  cases h : st.toStore.ensureIndex i.val with
+  | error e => exact ⟨rfl, rfl⟩
+  | ok ix =>
+    have hp := ensureIndex_present st.toStore ix _ h
+    cases ix with
+    | mk pr kn fr =>
+      simp only [FastStore.toStore] at hp
+      subst hp
+      by_cases hc : i ∈ st.spo
+      · simp [hc, FastStore.toStore]
+      · simp [hc, FastStore.toStore]
+
+/-- per-item index maintenance is NECESSARY: the "bulk loading" variant (feed `spo` while
+streaming, derive `pos`/`osp` afterwards, `?` in between) leaves an incoherent store after a source
+fault — kernel-checked witness (this is seeded change C15-d; the harness replays it through every
+access path of the real stores on every run) -/
+theorem bulk_insert_all_incoherent_witness :
+    ¬ (insertAllBulk (applyChain [] (rioSource (ε := Nat))) [.ok [.triple 1], .err [] 7]
+        ⟨[], [], [], [], none⟩).2.1.coherent := by
+  intro h
+  have := (h.1 (.triple 1)).mpr (by decide)
+  revert this
+  decide
+
 /-! ## Non-vacuity: the hypotheses are satisfiable by non-trivial values, and the statements
 speak about runs that really deliver, drop, map and fail -/
 
@@ -773,5 +953,19 @@ example :
 example :
     (serializeRio ⟨false, some 1, false⟩ (13 : Nat) (applyChain [] (rioSource (ε := Nat)))
       [.ok [.triple 1, .triple 2], .ok [.triple 3]]).2 = ([.triple 1, .triple 2], some (.error (.sink 13))) := by rfl
+
+/-- hypothesis of `fast_insert_all_coherent`, and its conclusion on a faulted run, computed -/
+example : (⟨[.triple 2], [.triple 2], [.triple 2], [2], none⟩ : FastStore).coherentB = true := by rfl
+example :
+    (insertAllFast (applyChain [] (rioSource (ε := Nat))) [.ok [.triple 1], .err [.triple 3] 7]
+      ⟨[.triple 2], [.triple 2], [.triple 2], [2], none⟩).2.2.1.coherentB = true := by rfl
+
+/-- `run_spec_generic` with a closure outside the protocol family, on strings -/
+example :
+    (tryForEachItem
+      (gApplyChain [.filterMapItems (fun (s : String) => if s.length > 1 then some (s ++ "!") else none)]
+        (rioSource (ε := Nat)))
+      (fun (k : List String) i => (k ++ [i], .ok ())) [.ok ["a", "bc"], .err ["def"] 4] []).2 =
+      ((["bc!", "def!"], some (.error (.source 4))) : List String × Option (StreamResult Unit Nat Nat)) := by rfl
 
 end SophiaProofs.C15
